@@ -31,6 +31,8 @@ VERSION_RE = re.compile(rb"HTTP/([0-9])\.([0-9])\Z")
 _TOK = rb"[!#$%&'*+\-.^_`|~0-9A-Za-z]+"
 _QS = rb'"(?:[\t \x21\x23-\x5b\x5d-\x7e\x80-\xff]|\\[\t \x21-\x7e\x80-\xff])*"'
 CHUNK_EXT_RE = re.compile(rb"(?:;" + _TOK + rb"(?:=(?:" + _TOK + rb"|" + _QS + rb"))?)*\Z")
+# the same with the "bad whitespace" RFC 9112 7.1.1 lets a recipient tolerate
+CHUNK_EXT_BWS_RE = re.compile(rb"(?:[ \t]*;[ \t]*" + _TOK + rb"(?:[ \t]*=[ \t]*(?:" + _TOK + rb"|" + _QS + rb"))?)*[ \t]*\Z")
 
 SINGLETONS_EITHER = {b"content-type", b"etag", b"user-agent", b"server", b"content-location",
                      b"content-range", b"max-forwards"}
@@ -271,7 +273,10 @@ def _framing(m: RefMsg, upgrades):
                 raise _Either(either)
             raise _Reject("final transfer coding is not chunked")
         if len(elems) > 1:
-            either = either or "transfer codings other than chunked"
+            # the statement names this one: "a transfer coding that is not a single final 'chunked'"
+            if either:
+                raise _Either(either)
+            raise _Reject("transfer codings other than a single final chunked")
         if m.version == (1, 0):
             either = either or "Transfer-Encoding in an HTTP/1.0 message"
         if either:
@@ -308,7 +313,7 @@ def _read_chunked(cur: _Cursor, m: RefMsg) -> bool:
             if b"\r" in sz:
                 raise _Reject("bare CR in chunk size")
             m.body = b"".join(body)
-            raise _Either("bare CR in chunk extension")
+            raise _Reject("bare CR in chunk extension")
         if line is None:
             m.body = b"".join(body)
             return False
@@ -322,7 +327,10 @@ def _read_chunked(cur: _Cursor, m: RefMsg) -> bool:
             raise _Reject("chunk-size is not 1*HEXDIG")
         if ext and not CHUNK_EXT_RE.match(ext):
             m.body = b"".join(body)
-            raise _Either("chunk extension outside the RFC grammar")
+            if CHUNK_EXT_BWS_RE.match(ext):
+                raise _Either("BWS in chunk extension")
+            # the statement names this one: "malformed chunk sizes, extensions or trailers"
+            raise _Reject("chunk extension outside the RFC grammar")
         size = int(size_b, 16)
         if size == 0:
             break
